@@ -19,9 +19,9 @@ PROPS["C16"] = prop(
     "DetectContentType too), testing/synctest's clock and the verifmem adapter (link table and foreign keys written from the MySQL adapter's SQL). The S3 handler and the SQL "
     "adapters' file methods are not executed. Handlers are called directly (no ServeMux, no gorilla CompressHandler); request targets the HTTP server would reject are skipped.",
     "5/C16", "files-http+world",
-    [Unit("TestC16Gate", _C16_MAIN, quick=4000, thorough=50000, shards_quick=4, shards_thorough=16),
-     Unit("TestC16Download", _C16_MAIN, quick=3000, thorough=28000, shards_quick=3, shards_thorough=16),
-     Unit("TestC16Links", _C16_MAIN, quick=800, thorough=10000, shards_quick=4, shards_thorough=16),
+    [Unit("TestC16Gate", _C16_MAIN, quick=3000, thorough=37500, shards_quick=4, shards_thorough=16),
+     Unit("TestC16Download", _C16_MAIN, quick=2500, thorough=23500, shards_quick=3, shards_thorough=16),
+     Unit("TestC16Links", _C16_MAIN, quick=600, thorough=7500, shards_quick=4, shards_thorough=16),
      ],
     ["the statement is one-directional for uploads ('act only on ...'): a valid upload that is refused cleanly (no record, no bytes) is reported under the weaker signature "
      "gate:valid-upload-refused; an empty file is refused by the handler (500) and only counted (class empty-file-refused)",
